@@ -15,7 +15,7 @@ pub const DEF: PropDef = PropDef {
     run,
     replay,
     level: "exploration",
-    rule: "three generators: (a) boundary sweep - for every (handshake string, DH, message index) one probing call per case on a fresh session driven honestly to that message: writes with every output-buffer length at each field boundary -1/0/+1 and at 0/total/total+16/65535/65536/66000 and payload lengths around the maximum, reads of the genuine message truncated at every boundary +-1, of garbage of those lengths, with payload buffers 0/p-1/p/p+1, and oversize messages; (b) proptest op sequences over the whole public API (name strings incl. edited/non-ASCII/random, builder keys of length 0..=200, prologues up to 66000, psk locations 0..=255, reads/writes with arbitrary bytes and buffers 0..=66000, set_psk, getters, conversions at any time, transport/stateless ops with boundary nonces, rekeys, nonce setters); (c) arbitrary strings to the name parser, and names with 1..5000 modifiers / repeated tokens / every psk index 0..300; every name that parses is built bare AND with all keys and ten PSKs supplied (so that the build passes the prerequisite checks), then written and read once. Oracle: no call unwinds (catch_unwind at the call boundary), every call returns Ok/Err and never a length larger than its output buffer. Non-trivial = a case that got past build and executed at least one read/write; distinct by full case value",
+    rule: "three generators: (a) boundary sweep - for every (handshake string, DH, message index) one probing call per case on a fresh session driven honestly to that message: writes with every output-buffer length at each field boundary -1/0/+1 and at 0/total/total+16/65535/65536/66000 and payload lengths around the maximum, reads of the genuine message truncated at every boundary +-1, of garbage of those lengths, with payload buffers 0/p-1/p/p+1, and oversize messages; (b) proptest op sequences over the whole public API (name strings incl. edited/non-ASCII/random, builder keys of length 0..=200, prologues up to 66000, psk locations 0..=255 and huge (2^32, 2^63, usize::MAX), reads/writes with arbitrary bytes and buffers 0..=66000, set_psk, getters, conversions at any time, transport/stateless ops with boundary nonces, rekeys, nonce setters); (b2) scalar arguments at their extremes: set_psk(location, key) for 22 locations up to usize::MAX x key lengths 0/31/32/33, nonce setters and stateless nonces at the same 22 values, on fresh / mid-handshake / finished sessions; (c) arbitrary strings to the name parser, and names with 1..5000 modifiers / repeated tokens / every psk index 0..300; every name that parses is built bare AND with all keys and ten PSKs supplied (so that the build passes the prerequisite checks), then written and read once. Oracle: no call unwinds (catch_unwind at the call boundary), every call returns Ok/Err and never a length larger than its output buffer. Non-trivial = a case that got past build and executed at least one read/write; distinct by full case value",
     technique: "robustness fuzzing: exhaustive boundary sweep from reference-model field maps + proptest API op-sequence generation with shrinking (+ libFuzzer target api_ops in the thorough tier)",
     assumptions: &[
         "non-termination and process aborts are only observable as time-outs (exit 2), never decided",
@@ -306,6 +306,57 @@ pub fn script_oracle(s: &ops::Script, acc: &mut Acc) -> CaseResult {
     Ok(())
 }
 
+/// Scalar arguments of the API at their extremes: `set_psk(location: usize, key)` for huge
+/// locations and every key length around 32, `set_receiving_nonce` / the stateless nonce
+/// argument at boundary values, on sessions in three states (fresh, mid-handshake, finished).
+#[derive(Clone, Debug, Serialize, Deserialize)]
+pub struct ScalarCase {
+    pub hs: String,
+    pub psks: Vec<u8>,
+    pub initiator: bool,
+    /// messages processed before the probe (capped at the pattern's length)
+    pub progress: usize,
+    pub loc: u64,
+    pub keylen: usize,
+}
+
+pub const SCALARS: [u64; 22] =
+    [0, 1, 2, 9, 10, 11, 255, 256, 257, 65535, 65536, (1 << 31) - 1, 1 << 31, (1 << 32) - 1, 1 << 32, (1 << 32) + 1, 1 << 48, (1 << 63) - 1, 1 << 63, u64::MAX - 2, u64::MAX - 1, u64::MAX];
+
+fn scalar_oracle(c: &ScalarCase, acc: &mut Acc) -> CaseResult {
+    let suite = all_suites()[0];
+    let spec = SessionSpec::simple(HsName { pattern: c.hs.clone(), psks: c.psks.clone() }, suite, 0xC105);
+    let progress = c.progress.min(spec.n_msgs());
+    let pair = drive_to(&spec, progress)?;
+    let mut h = if c.initiator { pair.i } else { pair.r };
+    let key = vec![0x5au8; c.keylen];
+    let loc = c.loc as usize;
+    let r = call("HandshakeState::set_psk", || h.set_psk(loc, &key))?;
+    acc.label(if r.is_ok() { "set_psk:ok" } else { "set_psk:err" });
+    if progress == spec.n_msgs() {
+        let oneway = spec.pattern().is_oneway();
+        let _ = oneway;
+        let mut buf = vec![0u8; 64];
+        // stateless calls with the scalar as the nonce; stateful nonce setter
+        let pair2 = drive_to(&spec, progress)?;
+        let h2 = if c.initiator { pair2.i } else { pair2.r };
+        let st = call("into_stateless_transport_mode", || h2.into_stateless_transport_mode())?.map_err(|x| Fail::setup(format!("{x:?}")))?;
+        let _ = call("StatelessTransportState::write_message", || st.write_message(c.loc, b"abc", &mut buf))?;
+        let _ = call("StatelessTransportState::read_message", || st.read_message(c.loc, &[7u8; 30], &mut buf))?;
+        let mut tt = call("into_transport_mode", || h.into_transport_mode())?.map_err(|x| Fail::setup(format!("{x:?}")))?;
+        call("TransportState::set_receiving_nonce", || tt.set_receiving_nonce(c.loc))?;
+        let _ = call("TransportState::read_message", || tt.read_message(&[7u8; 30], &mut buf))?;
+        call("TransportState::verif_set_sending_nonce", || tt.verif_set_sending_nonce(c.loc))?;
+        let _ = call("TransportState::write_message", || tt.write_message(b"abc", &mut buf))?;
+        let _ = call("TransportState::write_message", || tt.write_message(b"abc", &mut buf))?;
+        call("TransportState::rekey_outgoing", || tt.rekey_outgoing())?;
+        let _ = call("TransportState::sending_nonce", || tt.sending_nonce())?;
+        acc.label("transport_scalars");
+    }
+    acc.nontrivial(&format!("{c:?}"));
+    Ok(())
+}
+
 #[derive(Clone, Debug, Serialize, Deserialize)]
 pub struct ParseCase {
     pub s: String,
@@ -453,6 +504,25 @@ pub fn run(ctx: &Ctx) {
         },
         parse_oracle,
     );
+    // scalar arguments at their extremes
+    {
+        let mut sc = Vec::new();
+        for (hs, psks) in [("NN", vec![]), ("NN", vec![0u8]), ("XX", vec![3u8]), ("N", vec![]), ("IK", vec![1u8, 2])] {
+            for initiator in [true, false] {
+                for progress in [0usize, 1, 9] {
+                    for loc in SCALARS {
+                        for keylen in [0usize, 31, 32, 33] {
+                            if keylen != 32 && loc > 11 && loc != u64::MAX {
+                                continue;
+                            }
+                            sc.push(ScalarCase { hs: hs.to_string(), psks: psks.clone(), initiator, progress, loc, keylen });
+                        }
+                    }
+                }
+            }
+        }
+        ctx.run_list("scalar_arguments", &sc, true, scalar_oracle);
+    }
     // long and repetitive names (hundreds of modifiers, repeated tokens)
     {
         let mut long = Vec::new();
@@ -490,6 +560,7 @@ pub fn replay(ctx: &Ctx, sub: &str, case: &serde_json::Value, origin: &str) -> b
     match sub {
         "boundary_sweep" => ctx.replay_case::<SweepCase, _>(sub, case, sweep_oracle, origin),
         "transport_sweep" | "dense_lengths_both_backends" => ctx.replay_case::<TSweepCase, _>(sub, case, tsweep_oracle, origin),
+        "scalar_arguments" => ctx.replay_case::<ScalarCase, _>(sub, case, scalar_oracle, origin),
         "parse_strings" | "long_and_indexed_names" => ctx.replay_case::<ParseCase, _>(sub, case, parse_oracle, origin),
         "known_p256_invalid_scalar" => ctx.replay_case::<P256ScalarCase, _>(sub, case, p256_scalar_oracle, origin),
         "fuzz_bytes" => {
